@@ -20,6 +20,7 @@ from pathlib import Path
 import pydsdl
 
 from .. import api, dump, engine, sched, ws
+from .. import histories as H
 from ..ref import ns as N
 
 ID = "C10"
@@ -153,10 +154,14 @@ def plan(tier):
         shards.append({"kind": "odd-parents", "index": i})
     for i in range(len(HISTORY_OPS)):
         shards.append({"kind": "histories", "first": i})
+    shards += H.plan_shards(['nested-revisions', 'minor-versions'])
     return shards
 
 
 def cases(shard, tier):
+    if shard.get("kind") == "call-histories":
+        yield from H.cases_of(shard)
+        return
     k = shard["kind"]
     if k == "rn":
         yield {"kind": "rn", "config": shard["config"], "tier": tier}
@@ -632,6 +637,8 @@ def check_hashseed(case, R):
 
 
 def check_case(case, R):
+    if case.get("kind") == "call-history":
+        return H.check_history(case["label"], R, H.project_full, 'result-depends-on-earlier-calls', 'the result is a function of the directories read in THIS call')
     k = case["kind"]
     if k == "rn":
         check_rn(case, R)
